@@ -37,12 +37,17 @@ type p2pNode struct {
 	port     int
 	key      []byte
 	x        *Nd
+	retry    time.Duration // retry interval of the replicator retry loop (default 300ms)
 }
 
 func (p *p2pNode) open(ctx context.Context) error {
+	retry := p.retry
+	if retry == 0 {
+		retry = 300 * time.Millisecond
+	}
 	opts := []node.Option{node.WithDisableAPI(true), node.WithStorePath(p.dir), node.WithStoreType(node.BadgerStore), node.WithBadgerInMemory(false),
 		netConfig.WithListenAddresses(fmt.Sprintf("/ip4/127.0.0.1/tcp/%d", p.port)), netConfig.WithPrivateKey(p.key),
-		netConfig.WithEnablePubSub(!p.noPubSub), netConfig.WithRetryInterval([]time.Duration{300 * time.Millisecond})}
+		netConfig.WithEnablePubSub(!p.noPubSub), netConfig.WithRetryInterval([]time.Duration{retry})}
 	n, err := node.New(ctx, opts...)
 	if err != nil {
 		return err
@@ -78,6 +83,9 @@ func engRepl(e *Env) {
 	nScen := 6
 	if e.thorough() {
 		nScen = 40
+	}
+	if e.Args["only"] != "" {
+		nScen = 0 // only the scripted multi-node scenarios
 	}
 	basePort := 21000 + int(e.Seed%500)*40 + r.Intn(1000)
 	var cases []string
@@ -450,6 +458,9 @@ type Other { title: String }`
 		os.RemoveAll(b.dir)
 	}
 	replMultiScenarios(e, basePort+2*nScen+4)
+	interruptedRetryScenario(e, basePort+2*nScen+14)
+	crashDuringRetryScenario(e, basePort+2*nScen+18)
+	routingHistories(e, basePort+2*nScen+24)
 	e.writeCasesSharded("cases_C15", "CorrC15", "replcase", cases, 300)
 }
 
